@@ -1,7 +1,7 @@
 (* C12_polygon.v -- Polygon2D.distance_to_point / distance_from_edge_to_point (generated): the reported value is the least of the
    distances to ALL edges (it is attained on one edge and exceeds none), and - the root being monotone - no point of any edge is
    closer to the query than the reported value. *)
-From Coq Require Import QArith Qminmax List Lra.
+From Coq Require Import QArith Qminmax List Lqa.
 From LBG Require Import Base QGeom G0_vec G1_shapes G2_inter G3_poly G7_contain C11_inter2d C12_closest.
 Import ListNotations.
 Open Scope Q_scope.
